@@ -623,3 +623,25 @@ def liveness_schedules(rng, props, n, full=False):
             sc.add(a="mark", mark="pending_gone", addr=1)
         out.append(sc.s)
     return out
+
+
+# ---------------------------------------------------------------------------------------------------------------
+# C05 / C19: the table binding used tokens to addresses at its capacity (2048 entries, server.rs:51, 175-207)
+# ---------------------------------------------------------------------------------------------------------------
+def token_table_histories(props, fillers=(2047, 2048)):
+    """Token TV is used from address 1; `n` further valid tokens are presented (from address 2); then the holder of TV shows
+    up at address 3.  With 2047 others the binding is still in the table (refused); the 2048th replaces it (known finding D21)."""
+    out = []
+    for n in fillers:
+        sc = NS("tokentable-%d" % n, props, max_clients=2)
+        sc.token("TV", 10)
+        sc.client("v", "TV", 1)
+        sc.cupdate("v", 100, as_="vreq")
+        sc.sdeliver("vreq", as_="vchal")
+        for i in range(n):
+            sc.token("F%d" % i, 1000 + i)
+            sc.add(a="srequest", t="F%d" % i, **{"from": 2})
+        sc.client("moved", "TV", 3)
+        sc.pump(["moved"], dt=100, n=4)
+        out.append(sc.s)
+    return out
